@@ -44,6 +44,7 @@ type Transfer struct {
 
 // SkyWorld is a bootstrapped bridge with tokens, users and the per-denom ledger model.
 type SkyWorld struct {
+	batchPrev map[string]*batchSnap
 	// OpenBatches is the number of open batches seen at the last block boundary
 	OpenBatches int
 	*Bridge
